@@ -443,7 +443,10 @@ impl Layout {
         vec![self.xch.clone(), format!("{}/.config", self.home), self.cp.clone(), self.cq.clone(), "/etc/xdg".to_string()]
     }
     fn env(&self, h: usize, x: usize, d: usize) -> Vec<(&'static str, Option<String>)> {
-        let mut v = vec![("HOME", single_val(h, &self.home)), ("XDG_CONFIG_HOME", single_val(x, &self.xch)), ("XDG_CONFIG_DIRS", list_val(d, &self.cp, &self.cq))];
+        // list form 5 (config_dir part only): the user's own config directory is ALSO listed, in second
+        // position, in XDG_CONFIG_DIRS; the statement's order still makes XDG_CONFIG_HOME win
+        let dirs = if d == 5 { Some(format!("{}:{}", self.cp, self.xch)) } else { list_val(d, &self.cp, &self.cq) };
+        let mut v = vec![("HOME", single_val(h, &self.home)), ("XDG_CONFIG_HOME", single_val(x, &self.xch)), ("XDG_CONFIG_DIRS", dirs)];
         for (k, p) in &self.decoys {
             v.push((*k, Some(p.clone())));
         }
@@ -466,13 +469,13 @@ struct CfgCase {
     mask: u32,
 }
 
-const CFG_N: u64 = 2 * 3 * 3 * 5 * 32;
+const CFG_N: u64 = 2 * 3 * 3 * 6 * 32;
 
 fn cfg_case(idx: u64) -> Option<CfgCase> {
     let mask = (idx % 32) as u32;
     let r = idx / 32;
-    let d = (r % 5) as usize;
-    let r = r / 5;
+    let d = (r % 6) as usize;
+    let r = r / 6;
     let x = (r % 3) as usize;
     let r = r / 3;
     let h = (r % 3) as usize;
@@ -1035,7 +1038,7 @@ pub fn run(ctx: &Ctx) -> i32 {
         (
             "bounds",
             J::s(format!(
-                "dirs: {:?} each in forms {:?} of {{0 unset, 1 \"\", 2 '/x<tag>', 3 'rel/x<tag>/'}} x {:?} each in list forms {:?} of {{0 unset, 1 \"\", 2 'p', 3 'p:q', 4 ':p::q:', 5 'relp:q/', 6 '::'}} = {} configurations; config_dir: backend {{Memfs, Stdfs}} x HOME x XDG_CONFIG_HOME {{unset, \"\", value}} x XDG_CONFIG_DIRS (5 forms) x every subset of [XDG_CONFIG_HOME dir, HOME/.config, cp, cq, /etc/xdg] holding the file (/etc/xdg only on Memfs), decoy directories of XDG_DATA_HOME, XDG_DATA_DIRS, XDG_CACHE_HOME always hold it; getrids: uid {:?} x gid {:?} x SUDO_UID {:?} x SUDO_GID {:?}",
+                "dirs: {:?} each in forms {:?} of {{0 unset, 1 \"\", 2 '/x<tag>', 3 'rel/x<tag>/'}} x {:?} each in list forms {:?} of {{0 unset, 1 \"\", 2 'p', 3 'p:q', 4 ':p::q:', 5 'relp:q/', 6 '::'}} = {} configurations; config_dir: backend {{Memfs, Stdfs}} x HOME x XDG_CONFIG_HOME {{unset, \"\", value}} x XDG_CONFIG_DIRS (6 forms incl. one that repeats the user directory) x every subset of [XDG_CONFIG_HOME dir, HOME/.config, cp, cq, /etc/xdg] holding the file (/etc/xdg only on Memfs), decoy directories of XDG_DATA_HOME, XDG_DATA_DIRS, XDG_CACHE_HOME always hold it; getrids: uid {:?} x gid {:?} x SUDO_UID {:?} x SUDO_GID {:?}",
                 SINGLE.iter().map(|x| x.0).collect::<Vec<_>>(),
                 sp.singles,
                 LISTS.iter().map(|x| x.0).collect::<Vec<_>>(),
